@@ -244,6 +244,9 @@ func TestVerifC25(t *testing.T) {
 		}
 	}
 
+	// delimiter corpus: every format x passwords made of the formats' own delimiters x stripped/added candidates
+	e.delim(stores)
+
 	nScen := verifh.N(150, 1200)
 
 	// cost-12 bcrypt operations are rationed evenly over the run (token bucket), so upgrades happen on every store
